@@ -45,8 +45,7 @@ PROPS = {
                            # SMove* mutate the committed set index while holding only the read lock (finding D-SMOVE, predicted by the effect facts)
                            known_races=[('D-SMOVE', r'SMoveBy(One|Two)Bucket')]),
                       dict(name='sparse-raceonly', quick='-profile kv -workers 6 -txs 20 -dbs 2 -mode 2', thorough='-profile kv -workers 12 -txs 50 -dbs 3 -mode 2', raceonly=True,
-                           rounds=dict(quick=1, thorough=3),
-                           known_races=[('D-SORTFID', r'SortFID|BPTreeRootIdxWrapper'), ('D-QUEUE', r'WriteNodes|enqueue|dequeue')])],
+                           rounds=dict(quick=1, thorough=3))],
                 assumptions=['the Go memory model (lock => happens-before), the runtime scheduler and the soundness of the effect extraction are outside the Lean model: the race detector and the lock-order replay are a search for failures there',
                              'user code that calls Update inside View (re-entrant locking) is excluded']),
     'C17': dict(modules=['NutsProofs.Props.C17'], suites=[],
